@@ -225,6 +225,19 @@ IsNamedKind(k) == k \in {"record", "enum", "fixed"}
 BranchName(t, names) ==
   LET d == Deref(t, names) IN IF IsNamedKind(d.k) THEN d.name ELSE KindName(d.k)
 
+\* A named type in the null namespace defined inside a type with a namespace: the Parsing Canonical Form (full names, no namespace
+\* attribute) cannot express it - re-reading "E" inside "a.R" yields "a.E". The canonical form's fixed point and "valid schema with the
+\* same names" are then not defined by the Avro specification itself (Unspecified in C11.tree / C13).
+RECURSIVE NullNsInside(_, _)
+NullNsInside(t, ens) ==
+  CASE t.k = "record" -> (ens # <<>> /\ NsOf(t.name) = <<>>)
+                         \/ \E i \in 1..Len(t.fields) : NullNsInside(t.fields[i].type, NsOf(t.name))
+    [] t.k \in {"enum", "fixed"} -> ens # <<>> /\ NsOf(t.name) = <<>>
+    [] t.k = "array" -> NullNsInside(t.items, ens)
+    [] t.k = "map" -> NullNsInside(t.values, ens)
+    [] t.k = "union" -> \E i \in 1..Len(t.br) : NullNsInside(t.br[i], ens)
+    [] OTHER -> FALSE
+
 RECURSIVE NodeCount(_)
 NodeCount(t) ==
   CASE t.k = "record" -> 1 + FoldLeft(LAMBDA a, f : a + NodeCount(f.type), 0, t.fields)
